@@ -85,9 +85,17 @@ def run(tier, seed, mutant=None, only_validate=False):
         for nsrc, ms in ((2, 1), (2, 2), (3, 1)):
             for c in ("future", "sync"):
                 cfgs.append({"kind": "zip", "nsrc": nsrc, "maxsize": ms, "cons": [c], "max_elems": 6})
+        # a herd of producers blocked on one input (more of them than the zip has inputs), the other input delivering over
+        # several loop iterations: every wake-up pattern between two tuples
+        import itertools
+        for c in ("sync", "future"):
+            herd = ["e1 " * n1 + " ".join(q) + " s s s" for n1 in (4, 5) for q in itertools.product(("e2", "s"), repeat=6)]
+            if c == "future":
+                herd = ["e1 " * 4 + " ".join(q) + " s d s d s" for q in itertools.product(("e2", "s", "d"), repeat=5)]
+            cfgs.append({"kind": "zip", "nsrc": 2, "maxsize": 1, "cons": [c], "max_elems": 10, "schedules": herd})
         amod.node_engine(res, work, node="zip", trace_module="AsyncZipTrace", cfgs=cfgs,
-                         consts_of=lambda c: dict(K=c["nsrc"], NE=6, MaxSize=c["maxsize"], SyncCons=c["cons"][0] == "sync", MaxOut=6,
-                                                  Recheck=True),
+                         consts_of=lambda c: dict(K=c["nsrc"], NE=c["max_elems"], MaxSize=c["maxsize"], SyncCons=c["cons"][0] == "sync",
+                                                  MaxOut=c["max_elems"], Recheck=True),
                          adapt=adapt, attribute=attribute, seed=seed, depth=6 if tier == "quick" else 8,
                          limit=250 if tier == "quick" else 2500, nrandom=250 if tier == "quick" else 2500, maxlen=16,
                          default_prop="C03", mutant=mutant,
@@ -100,7 +108,7 @@ def run(tier, seed, mutant=None, only_validate=False):
 
 
 TRACE_MODULE = "AsyncZipTrace"
-consts_of = lambda c: dict(K=c['nsrc'], NE=6, MaxSize=c['maxsize'], SyncCons=c['cons'][0] == 'sync', MaxOut=6, Recheck=True)
+consts_of = lambda c: dict(K=c['nsrc'], NE=c['max_elems'], MaxSize=c['maxsize'], SyncCons=c['cons'][0] == 'sync', MaxOut=c['max_elems'], Recheck=True)
 
 
 def replay(v):
